@@ -16,7 +16,7 @@ func init() {
 			"C11.2 the store is written and read under the same args.info_hash; C11.3 values is assigned only from the BEP 32 filter applied to the store's answer with the query's want list and source IP, and the filter appends an entry only under (wants-v4 ∧ 4-byte form) ∨ (wants-v6 ∧ 16-byte form), and the krpc encoders keep that form (no value-receiver Marshal* method assigns to its receiver, NodeAddr's IP bytes go out verbatim; shared with C15.5); " +
 			"C11.4 a get_peers reply carries a token whenever a peer store is configured (shared with C10.4); C11.5 the bundled store's index is only touched under its lock, AddPeer stores the given endpoint under the given infohash keyed by its IP, GetPeers returns only entries of its own infohash, and a missing per-infohash map (or the index) is created in the same critical section that found it missing; " +
 			"C11.6 on the accepted-announce path the acknowledgement is preceded by PeerStore.AddPeer unless no store is configured, whatever other hooks are set; filterPeers returns each kept entry in the address form of the family it was kept for; " +
-			"C11.7 the address family of returned nodes follows the explicit want list, else the query's family (shared with C09.6).",
+			"C11.7 the address family of returned nodes follows the explicit want list, else the query's family (shared with C09.6). C11.8 serving a lookup does not rewrite what the store keeps: the BEP 32 filter writes into the slice it is given only if no bundled store hands out a slice it retains (conjunction of two sites).",
 		NotDecided: "replacement semantics over histories, 'only those' over time, asynchronous visibility of the go AddPeer.",
 		Rules: []*Rule{
 			{ID: "C11.1", Doc: "announced endpoint construction", Floor: 2, Run: c11r1},
@@ -24,6 +24,7 @@ func init() {
 			{ID: "C11.3", Doc: "values only through the BEP 32 filter", Floor: 2, Run: c11r3},
 			{ID: "C11.4", Doc: "a get_peers reply carries a token whenever a peer store is configured (shared with C10.4)", Floor: 2, Run: c10r4},
 			{ID: "C11.5", Doc: "bundled in-memory store", Floor: 6, Run: c11r5},
+			{ID: "C11.8", Doc: "serving a lookup does not rewrite what the store keeps: the BEP 32 filter does not write into the slice it is given unless every bundled store hands out a slice of the caller's own (not retained, not loaded from the store's state)", Floor: 2, Run: c11r8},
 			{ID: "C11.6", Doc: "an accepted announce reaches the peer store whenever one is configured", Floor: 1, Run: c11r6},
 			{ID: "C11.7", Doc: "family selection: explicit want, else the query's address family (shared with C09.6)", Floor: 2, Run: c09r6},
 		},
@@ -513,4 +514,118 @@ func c11r6(w *World, rr *RuleRun) {
 	if nAP == 0 {
 		rr.ObligeTrivial(shortFuncName(h.fn), "no PeerStore.AddPeer call in the handler region", "-", true, "")
 	}
+}
+
+// c11r8: "returns the endpoint until it is replaced" over a sequence of lookups. Two sites cooperate:
+// the store's GetPeers (does the caller own the slice it gets?) and the handler's filter (does it
+// write into its input?). Either alone is harmless; together a get_peers rewrites the store's
+// answer for the next one (C11-v1: cached snapshot + in-place filter). The rule is the conjunction.
+func c11r8(w *World, rr *RuleRun) {
+	fp := w.P.Func("filterPeers")
+	in := fp.Params[len(fp.Params)-1] // the list of peers (last parameter, []krpc.NodeAddr)
+	if _, isSl := in.Type().Underlying().(*types.Slice); !isSl {
+		broken("filterPeers: last parameter is not the peer list (%s)", in.Type())
+	}
+	// A: filterPeers writes into its input: the result's storage may be the parameter's, or an element
+	// of the parameter is stored to
+	var writes []string
+	for _, f := range w.regionFuncs(fp) {
+		for _, b := range f.Blocks {
+			for _, ins := range b.Instrs {
+				switch x := ins.(type) {
+				case *ssa.Return:
+					if f == fp && len(x.Results) > 0 {
+						for _, o := range w.staleSliceOrigins(x.Results[0], 0, map[ssa.Value]bool{}) {
+							if strings.Contains(o, w.TS.Of(in).String()) {
+								writes = append(writes, "result shares storage with the input ("+o+") at "+w.P.InstrPos(ins))
+							}
+						}
+					}
+				case *ssa.Store:
+					if ia, ok := x.Addr.(*ssa.IndexAddr); ok && sliceRootIs(ia.X, in, 0) {
+						writes = append(writes, "element store into the input at "+w.P.InstrPos(ins))
+					}
+				}
+			}
+		}
+	}
+	writes = uniq(writes)
+	// B: some bundled store's GetPeers hands out a slice it retains
+	var retained []string
+	nStores := 0
+	for _, f := range w.P.LibFuncs {
+		if f.Name() != "GetPeers" || f.Signature.Recv() == nil || len(f.Blocks) == 0 || f.Synthetic != "" {
+			continue
+		}
+		res := f.Signature.Results()
+		if res.Len() != 1 {
+			continue
+		}
+		if _, isSl := res.At(0).Type().Underlying().(*types.Slice); !isSl {
+			continue
+		}
+		nStores++
+		var why []string
+		aliases := map[ssa.Value]bool{}
+		for _, b := range f.Blocks {
+			for _, ins := range b.Instrs {
+				if r, ok := ins.(*ssa.Return); ok && len(r.Results) > 0 {
+					for _, o := range w.staleSliceOrigins(r.Results[0], 0, aliases) {
+						why = append(why, "returns "+o)
+					}
+				}
+			}
+		}
+		// the returned storage is also filed in the store (map element, field, global)
+		for _, b := range f.Blocks {
+			for _, ins := range b.Instrs {
+				switch x := ins.(type) {
+				case *ssa.MapUpdate:
+					if aliases[x.Value] {
+						why = append(why, "files the returned slice in a map at "+w.P.InstrPos(ins))
+					}
+				case *ssa.Store:
+					if _, isLocal := x.Addr.(*ssa.Alloc); !isLocal && aliases[x.Val] {
+						if _, isSl := x.Val.Type().Underlying().(*types.Slice); isSl {
+							why = append(why, "stores the returned slice at "+w.P.InstrPos(ins))
+						}
+					}
+				}
+			}
+		}
+		why = uniq(why)
+		rr.ObligeTrivial(shortFuncName(f), "GetPeers hands out a slice of the caller's own (informative; the verdict is the conjunction below)", w.P.Pos(f.Pos()), true, strings.Join(why, "; "))
+		if len(why) > 0 {
+			retained = append(retained, shortFuncName(f)+": "+strings.Join(why, "; "))
+		}
+	}
+	if nStores == 0 {
+		rr.Oblige("(library)", "a bundled peer store exists", "-", false, "no GetPeers implementation found")
+	}
+	ok := len(writes) == 0 || len(retained) == 0
+	rr.Oblige(shortFuncName(fp), "the filter does not write into a slice a bundled store retains", w.P.Pos(fp.Pos()), ok,
+		fmt.Sprintf("filter writes into its input: %v; stores handing out retained slices: %v", writes, retained))
+}
+
+// sliceRootIs: v is root, or a reslice / phi of it.
+func sliceRootIs(v ssa.Value, root ssa.Value, depth int) bool {
+	if v == root {
+		return true
+	}
+	if depth > 6 {
+		return false
+	}
+	switch x := v.(type) {
+	case *ssa.Slice:
+		return sliceRootIs(x.X, root, depth+1)
+	case *ssa.Phi:
+		for _, e := range x.Edges {
+			if sliceRootIs(e, root, depth+1) {
+				return true
+			}
+		}
+	case *ssa.ChangeType:
+		return sliceRootIs(x.X, root, depth+1)
+	}
+	return false
 }
